@@ -190,6 +190,13 @@ class RemoteProxy(BaseProxy):
         return self._meta
 
     async def send(self, request: Any) -> Any:
+        if self._channel._receiver_task.done():
+            # The simulator has closed its connection while we were not
+            # waiting for a reply. Nobody would ever answer this
+            # request, so we must not wait for that.
+            raise ConnectionResetError(
+                "The simulator has closed its connection to mosaik."
+            )
         return await self._channel.send(request)
 
     async def stop(self) -> None:
